@@ -1,6 +1,8 @@
 package main
 
 import (
+	"crypto/sha512"
+	"encoding/json"
 	"fmt"
 	"math"
 	"sort"
@@ -70,6 +72,22 @@ func showU32(l []uint32) string {
 		p[i] = strconv.FormatUint(uint64(v), 10)
 	}
 	return strings.Join(p, ",")
+}
+
+// refSeed is an independent derivation of the participant selection seed of a block: SHA-512 twice over the JSON record
+// of (height + 1, proposer, block root, VRF value) — the block's own fields and nothing else.
+func refSeed(height, proposer uint32, root common.Uint256, vrfValue []byte) vconfig.VRFValue {
+	data, err := json.Marshal(&struct {
+		BlockNum          uint32         `json:"block_num"`
+		PrevBlockProposer uint32         `json:"prev_block_proposer"`
+		BlockRoot         common.Uint256 `json:"block_root"`
+		VrfValue          []byte         `json:"vrf_value"`
+	}{height + 1, proposer, root, vrfValue})
+	if err != nil {
+		return vconfig.VRFValue{}
+	}
+	t := sha512.Sum512(data)
+	return vconfig.VRFValue(sha512.Sum512(t[:]))
 }
 
 func seedOf(s string) (vconfig.VRFValue, bool) {
@@ -180,8 +198,11 @@ func (f *vbftsel) Exec(r *hx.Run, op []string) string {
 				Info:  &vconfig.VbftBlockInfo{Proposer: uint32(atoi(op[7])), VrfValue: hx.UnHex(op[9])},
 			}
 		}
-		if vbft.VerifParticipantSeed(mk()) != vrf {
-			return "bad-seed"
+		if refSeed(uint32(atoi(op[6])), uint32(atoi(op[7])), root, hx.UnHex(op[9])) != vrf {
+			return "bad-seed" // the op line's seed is not the seed of the op line's block
+		}
+		if got := vbft.VerifParticipantSeed(mk()); got != vrf {
+			r.Viol("C40:selection-seed-not-derived-from-the-block", fmt.Sprintf("getParticipantSelectionSeed of the block (height %s, proposer %s, root %s) is %x, the double SHA-512 of its own fields is %x", op[6], op[7], op[8], got[:8], vrf[:8]))
 		}
 		chain := &vconfig.ChainConfig{N: N, C: C, PosTable: table}
 		cfg, err := vbft.VerifBuildParticipantConfig(uint32(atoi(op[1])), mk(), chain)
@@ -216,6 +237,28 @@ func (f *vbftsel) Exec(r *hx.Run, op []string) string {
 			}
 		}
 		return out
+	case "seed":
+		// seed <height> <proposer> <blockroot> <vrfvalue> <seed>: getParticipantSelectionSeed of that block
+		if len(op) != 6 {
+			return "bad-op"
+		}
+		root, err := common.Uint256ParseFromBytes(hx.UnHex(op[3]))
+		if err != nil {
+			return "bad-op"
+		}
+		want := refSeed(uint32(atoi(op[1])), uint32(atoi(op[2])), root, hx.UnHex(op[4]))
+		if hx.Hex(want[:]) != op[5] {
+			return "bad-seed"
+		}
+		blk := &vbft.Block{
+			Block: &types.Block{Header: &types.Header{Height: uint32(atoi(op[1])), BlockRoot: root}},
+			Info:  &vconfig.VbftBlockInfo{Proposer: uint32(atoi(op[2])), VrfValue: hx.UnHex(op[4])},
+		}
+		got := vbft.VerifParticipantSeed(blk)
+		if got != want {
+			r.Viol("C40:selection-seed-not-derived-from-the-block", fmt.Sprintf("getParticipantSelectionSeed of the block (height %s, proposer %s, root %s) is %x, the double SHA-512 of its own fields is %x", op[1], op[2], op[3], got[:8], want[:8]))
+		}
+		return hx.Hex(got[:])
 	case "peerscfg":
 		if len(op) != 3 {
 			return "bad-op"
@@ -477,12 +520,35 @@ func (f *vbftsel) Gen(r *hx.Run) {
 			Block: &types.Block{Header: &types.Header{Height: height, BlockRoot: mustU256(root)}},
 			Info:  &vconfig.VbftBlockInfo{Proposer: proposer, VrfValue: vrfv},
 		}
-		seed := vbft.VerifParticipantSeed(blk)
+		_ = blk
+		seed := refSeed(height, proposer, mustU256(root), vrfv)
 		blkNum := height + 1
 		if r.Rng.Chance(1, 50) {
 			blkNum = 0
 		}
 		res := r.Do(fmt.Sprintf("build %d %d %d %s %s %d %d %s %s", blkNum, N, C, hx.Hex(seed[:]), showU32(table), height, proposer, hx.Hex(root), hx.Hex(vrfv)))
+		// sibling blocks: same height and proposer, another merkle root and/or VRF value (stale fork, equivocating
+		// proposer), derived back to back in the same process and in both orders: each must get its own seed
+		if r.Rng.Chance(1, 5) {
+			root2, vrf2 := root, vrfv
+			switch r.Rng.Intn(3) {
+			case 0:
+				root2 = r.Rng.Bytes(32)
+			case 1:
+				vrf2 = r.Rng.Bytes(64)
+			default:
+				root2, vrf2 = r.Rng.Bytes(32), r.Rng.Bytes(64)
+			}
+			seed2 := refSeed(height, proposer, mustU256(root2), vrf2)
+			line := func(sd vconfig.VRFValue, rt, vv []byte) string {
+				return fmt.Sprintf("build %d %d %d %s %s %d %d %s %s", blkNum, N, C, hx.Hex(sd[:]), showU32(table), height, proposer, hx.Hex(rt), hx.Hex(vv))
+			}
+			r.Do(line(seed2, root2, vrf2))
+			r.Do(line(seed, root, vrfv))
+			r.Do(fmt.Sprintf("seed %d %d %s %s %s", height, proposer, hx.Hex(root2), hx.Hex(vrf2), hx.Hex(seed2[:])))
+			r.Do(fmt.Sprintf("seed %d %d %s %s %s", height, proposer, hx.Hex(root), hx.Hex(vrfv), hx.Hex(seed[:])))
+			r.Hist("build.sibling-blocks")
+		}
 		sig := fmt.Sprintf("%s/N%d/C%d/%s", kind, N, C, strings.Fields(res)[0])
 		if strings.HasPrefix(res, "ok") {
 			fs := strings.Fields(res)
